@@ -30,21 +30,60 @@ Lemma policy_dropped_reset s : policy_dropped (sts_reset s).
 Proof. repeat split. Qed.
 
 (* ---- which value the acknowledgement carries ----------------------------- *)
-Lemma ack_fold_sts tmp l en :
+(* one token of an acknowledgement: "-name" removes name, anything else records the token
+   with the advertised value (nil when it was never advertised) *)
+Lemma ack_step_cases tmp en tok :
+  (exists name, tok = 45 :: name /\ ack_step tmp en tok = adel name en) \/
+  ((forall name, tok <> 45 :: name) /\
+   ack_step tmp en tok = aset tok (match aget tok tmp with Some v => v | None => None end) en).
+Proof.
+  unfold ack_step. destruct tok as [|b name].
+  - right. split; [intros name; discriminate|]. destruct (aget [] tmp); reflexivity.
+  - destruct (N.eqb b 45) eqn:E.
+    + apply N.eqb_eq in E. subst b. left. exists name. split; reflexivity.
+    + right. split.
+      * intros n H. injection H as Hb _. subst b. rewrite N.eqb_refl in E. discriminate.
+      * destruct (aget (b :: name) tmp); reflexivity.
+Qed.
+
+Lemma ack_fold_sts tmp l : forall en,
+  ~ In s_minus_sts l ->
   aget s_sts (fold_left (ack_step tmp) l en) =
   if existsb (streqb s_sts) l
   then Some (match aget s_sts tmp with Some v => v | None => None end)
   else aget s_sts en.
 Proof.
-  revert en. induction l as [|tok r IH]; intros en; [reflexivity|].
-  cbn [fold_left existsb]. rewrite IH.
-  destruct (streqb s_sts tok) eqn:E.
-  - apply streqb_eq in E. subst tok. cbn [orb].
-    destruct (existsb (streqb s_sts) r); [reflexivity|].
-    unfold ack_step. destruct (aget s_sts tmp); apply aget_aset_eq.
-  - cbn [orb]. destruct (existsb (streqb s_sts) r); [reflexivity|].
-    apply streqb_neq in E.
-    unfold ack_step. destruct (aget tok tmp); apply aget_aset_neq; congruence.
+  induction l as [|tok r IH]; intros en Hno; [reflexivity|].
+  cbn [fold_left existsb]. rewrite IH by (intros H; apply Hno; right; exact H).
+  destruct (ack_step_cases tmp en tok) as [[name [Et Es]]|[Hn Es]]; rewrite Es.
+  - (* a removal, of something other than sts *)
+    assert (Hne : name <> s_sts).
+    { intros ->. apply Hno. left. exact Et. }
+    assert (E : streqb s_sts tok = false) by (apply streqb_neq; subst tok; discriminate).
+    rewrite E. cbn [orb]. destruct (existsb (streqb s_sts) r); [reflexivity|].
+    apply aget_adel_neq. exact Hne.
+  - destruct (streqb s_sts tok) eqn:E; cbn [orb].
+    + apply streqb_eq in E. subst tok.
+      destruct (existsb (streqb s_sts) r); [reflexivity|apply aget_aset_eq].
+    + destruct (existsb (streqb s_sts) r); [reflexivity|].
+      apply streqb_neq in E. apply aget_aset_neq. congruence.
+Qed.
+
+Lemma aget_adel_none_ {V} (k k' : str) (m : amap V) : aget k m = None -> aget k (adel k' m) = None.
+Proof.
+  intros H. destruct (str_eq_dec k' k) as [->|Hne]; [apply aget_adel_eq|].
+  rewrite aget_adel_neq by exact Hne. exact H.
+Qed.
+
+(* tokens other than "sts" never enable sts *)
+Lemma ack_fold_none tmp l : forall en,
+  ~ In s_sts l -> aget s_sts en = None -> aget s_sts (fold_left (ack_step tmp) l en) = None.
+Proof.
+  induction l as [|tok r IH]; intros en Hno Hen; [exact Hen|].
+  cbn [fold_left]. apply IH; [intros H; apply Hno; right; exact H|].
+  destruct (ack_step_cases tmp en tok) as [[name [Et Es]]|[Hn Es]]; rewrite Es.
+  - apply aget_adel_none_. exact Hen.
+  - rewrite aget_aset_neq; [exact Hen|]. intros E. apply Hno. left. exact E.
 Qed.
 
 Lemma existsb_streqb_In k l : existsb (streqb k) l = true <-> In k l.
@@ -57,17 +96,14 @@ Qed.
 Lemma acks_sts_value st toks :
   acks_sts toks -> aget s_sts (ack_enabled st toks) = Some (advertised_policy st).
 Proof.
-  intros H. unfold ack_enabled, advertised_policy. rewrite ack_fold_sts.
+  intros [H Hno]. unfold ack_enabled, advertised_policy. rewrite ack_fold_sts by exact Hno.
   apply existsb_streqb_In in H. rewrite H. reflexivity.
 Qed.
 
-Lemma not_acked_value st toks :
-  ~ acks_sts toks -> aget s_sts (ack_enabled st toks) = aget s_sts (st_enabled st).
-Proof.
-  intros H. unfold ack_enabled. rewrite ack_fold_sts.
-  destruct (existsb (streqb s_sts) (split_byte 32 toks)) eqn:E; [|reflexivity].
-  apply existsb_streqb_In in E. contradiction.
-Qed.
+Lemma not_acked_none st toks :
+  ~ In s_sts (split_byte 32 toks) -> aget s_sts (st_enabled st) = None ->
+  aget s_sts (ack_enabled st toks) = None.
+Proof. intros H He. unfold ack_enabled. apply ack_fold_none; assumption. Qed.
 
 (* ---- one event: the three things handleCAP can do ------------------------- *)
 Definition same_timestamps (s s' : strict_transport) : Prop :=
@@ -700,10 +736,7 @@ Definition no_sts (st : cap_state) : Prop :=
   aget s_sts (st_tmp st) = None /\ aget s_sts (st_enabled st) = None.
 
 Lemma aget_adel_none {V} (k k' : str) (m : amap V) : aget k m = None -> aget k (adel k' m) = None.
-Proof.
-  intros H. destruct (str_eq_dec k' k) as [->|Hne]; [apply aget_adel_eq|].
-  rewrite aget_adel_neq by exact Hne. exact H.
-Qed.
+Proof. apply aget_adel_none_. Qed.
 
 Lemma fold_adel_none {V} (k : str) (ks : list str) : forall m : amap V,
   aget k m = None -> aget k (fold_left (fun en k' => adel k' en) ks m) = None.
@@ -738,13 +771,13 @@ Proof.
   intros Hposs [Ht He] Hh.
   destruct (is_ack3 params) eqn:Ea.
   - destruct (is_ack3_shape _ Ea) as [a [toks ->]].
-    assert (Hn : ~ acks_sts toks).
+    assert (Hn : ~ In s_sts (split_byte 32 toks)).
     { intros Hin. specialize (Hh a toks eq_refl s_sts Hin). unfold amem in Hh. rewrite Ht in Hh. discriminate. }
-    rewrite handle_cap_ack. unfold ack_result. rewrite (not_acked_value st toks Hn), He.
+    rewrite handle_cap_ack. unfold ack_result. rewrite (not_acked_none st toks Hn He).
     destruct (finish_ack_quiet cfg (ack_enabled st toks) (st_sts st)) as [Hw Hs].
     split; [|split; [exact Hs|exact Hw]].
     unfold finish_ack. destruct (aget s_sasl _), (c_sasl cfg); cbn [fst]; (split; [reflexivity|]);
-      cbn [st_enabled]; rewrite (not_acked_value st toks Hn); exact He.
+      cbn [st_enabled]; exact (not_acked_none st toks Hn He).
   - destruct (handle_cap_other ord cfg tls now st params Ea) as [Hs Hw].
     split; [|split; [exact Hs|exact Hw]].
     unfold is_ack3 in Ea. unfold handle_cap, no_sts.
